@@ -104,47 +104,79 @@ func InBubble(t *testing.T, seed uint64, sched []uint16, f func(w *World)) (pv i
 	log.SetFlags(0)
 	hclog.Info.SetOutput(sl)
 	hclog.Info.SetFlags(0)
-	defer func() {
-		if r := recover(); r != nil {
-			pv = r
-		}
-	}()
-	synctest.Test(t, func(bt *testing.T) {
-		s := core.NewSim(sched)
-		s.SiteSalt = seed
-		if (seed>>4)%2 == 1 {
-			// half of the runs have slow goroutines: some parks last many steps
-			s.StallMod = 4 + (seed>>5)%16
-		}
-		if (seed>>9)%4 == 1 {
-			// a quarter of the runs have slow actors: about one in three logical actors (a connection's
-			// serve goroutine, a controller, the application) only runs when nobody else can
-			s.SlowMod = 3
-		}
-		if core.FineGrainedBuild && os.Getenv("VERIF_FINE") != "" {
-			s.Fine = true
-			s.SiteMod = 4 + seed%9
-			s.MaxSteps = 80000
-		}
-		w := &World{T: bt, Sim: s, Dir: dir, ServerLog: sl}
-		cs := seedBytes(seed, 1)
-		w.Rand = mrand.NewChaCha8(cs)
-		s.Activate()
+	// The bubble runs on a goroutine of its own: a tree under test that leaks a mutex on some
+	// path leaves goroutines blocked on it forever, synctest.Test then never returns, and the
+	// verdict the run already reached would be lost to the watchdog. Such a bubble is abandoned
+	// (its goroutines leak, its fake clock stands still because one of them is not durably blocked).
+	done := make(chan interface{}, 4)
+	var simRef *core.Sim
+	go func() {
 		defer func() {
-			// teardown: everything passes through, every goroutine must exit
-			s.Teardown()
-			s.CloseAll()
-			w.StopTransport()
-			if s.Listener != nil {
-				s.Listener.Close()
-			}
-			synctest.Wait()
-			s.Deactivate()
+			r := recover()
+			done <- r
 		}()
-		f(w)
-	})
-	return nil
+		synctest.Test(t, func(bt *testing.T) {
+			s := core.NewSim(sched)
+			simRef = s
+			s.SiteSalt = seed
+			if (seed>>4)%2 == 1 {
+				// half of the runs have slow goroutines: some parks last many steps
+				s.StallMod = 4 + (seed>>5)%16
+			}
+			if (seed>>9)%4 == 1 {
+				// a quarter of the runs have slow actors: about one in three logical actors (a connection's
+				// serve goroutine, a controller, the application) only runs when nobody else can
+				s.SlowMod = 3
+			}
+			if core.FineGrainedBuild && os.Getenv("VERIF_FINE") != "" {
+				s.Fine = true
+				s.SiteMod = 4 + seed%9
+				s.MaxSteps = 80000
+			}
+			w := &World{T: bt, Sim: s, Dir: dir, ServerLog: sl}
+			cs := seedBytes(seed, 1)
+			w.Rand = mrand.NewChaCha8(cs)
+			s.Activate()
+			defer func() {
+				// teardown: everything passes through, every goroutine must exit
+				if s.LeakedLockWaiters() > 0 {
+					// somebody waits for a mutex that is held although nothing can run: unless its holder
+					// is one of the parked goroutines, quiescence will never come. Do not wait for it here.
+					s.Teardown()
+					s.CloseAll()
+					go w.StopTransport()
+					if s.Listener != nil {
+						s.Listener.Close()
+					}
+					done <- bubbleSuspect{}
+					return
+				}
+				s.Teardown()
+				s.CloseAll()
+				w.StopTransport()
+				if s.Listener != nil {
+					s.Listener.Close()
+				}
+				synctest.Wait()
+				s.Deactivate()
+			}()
+			f(w)
+		})
+	}()
+	v := <-done
+	if _, ok := v.(bubbleSuspect); ok {
+		select {
+		case v = <-done: // the holder was a parked goroutine: the bubble ended after all
+			simRef.Deactivate()
+		case <-time.After(15 * time.Second): // real time: this goroutine is outside the bubble
+			simRef.Deactivate()
+			return "bubble abandoned: goroutines of the tree under test wait for a mutex that nobody releases"
+		}
+	}
+	return v
 }
+
+type bubbleSuspect struct{}
 
 // Accessories builds n accessories; the first is the bridge when n > 1.
 func BuildAccessories(n int, tag string) []*accessory.Accessory {
